@@ -1,6 +1,10 @@
 from ..framework import Spec
-from ..ties_sys import sys_tie
+from ..ties_sys import sys_tie, scenario_tie
+from ..scenarios import gen_zone_top_scenario
 from ..ties_layout import zone_set_tie, create_zone_tie
 
 SPEC = Spec(pid='C05', coq_needs=['Base', 'Layout', 'LayoutProofs', 'Program', 'ProgramProofs', 'LayoutTie', 'Properties/C05'],
-            ties=[zone_set_tie(), create_zone_tie(), sys_tie('C05')])
+            ties=[zone_set_tie(), create_zone_tie(), sys_tie('C05'),
+                  # a zone ending where GLOBAL ends, filled to its last address and followed by lines that emit nothing;
+                  # a memory map selected by a conditional chain (same zone name declared in both branches)
+                  scenario_tie('zone_top', gen_zone_top_scenario, 150, 2500)])
